@@ -12,7 +12,8 @@ Init == v \in Pool /\ nb \in BOOLEAN
 Next == UNCHANGED <<v, nb>>
 NA == <<97>>
 NFn == <<102>>
-Before == HashMapCtx((NA :> v), (NFn :> BehId), nb)
+\* two more variables whose names a normalising (de)serialiser would merge with `a`: "A" and "a " (trailing blank)
+Before == HashMapCtx((NA :> v) @@ (<<65>> :> VNat(3)) @@ (<<97, 32>> :> VBool(TRUE)), (NFn :> BehId), nb)
 After == SerdeProjection(Before)
 Emit == PrintT(ToJson([kind |-> "serde_value", v |-> JVal(v), nb |-> nb, post |-> CtxJson(After)]))
 SpecTheorems == After.vars = Before.vars /\ After.nb = Before.nb /\ DOMAIN After.funcs = {}
